@@ -110,7 +110,33 @@ def invoking_ruleset_rule(ctx):
     ctx.floor("invoking_ruleset_publications", 1, "setInvokingRuleset(<ruleset>) call sites")
 
 
+
+def pause_actions_writes_both(ctx):
+    """Ruleset::pause_actions(d) writes the deadline (steady now + d) AND marks the plugin override on every path - also for d = 0: the STOP
+    branch of run_action_chain relies on the mark to skip the ruleset's own delay.  Shared by C05 and C02."""
+    P = ctx.prog
+    pause = ctx.fn1("Oomd::Engine::Ruleset::pause_actions")
+    # ---- R4 pause_actions
+    pw2 = field_writes(pause, "pause_actions_until_")
+    fw2 = [i for i in field_writes(pause, "plugin_overrode_post_action_delay_")
+           if pause.text(write_rhs(pause, i)) == "true"]
+    ev = {i: [("set", "pw")] for i in pw2}
+    ev.update({i: [("set", "fw")] for i in fw2})
+    f4 = Flow(P, pause, events=ev, cg=ctx.cg)
+    ex = f4.exits()
+    good = ex and all(all("pw" in st.must and "fw" in st.must for st in e[3].values()) for e in ex)
+    ctx.check(good, "pause_actions-writes-both", "must_follow", pause.loc(),
+              "pause_actions writes the deadline and marks the override on every path",
+              "pause_actions does not write both pause_actions_until_ and the override flag on every path")
+    for i in pw2:
+        rhs = Expander(P, pause)(write_rhs(pause, i))          # (a clock reading bound to a local first is the same reading)
+        ctx.check("steady_clock::now()" in rhs and "duration" in rhs, "pause_actions-value",
+                  "value-shape", pause.loc(i), "deadline = steady now + duration",
+                  "deadline written from unexpected expression: " + rhs)
+
 def run(ctx):
+    from .C13 import compile_keeps_nothing_between_calls
+    compile_keeps_nothing_between_calls(ctx, "C05")      # a setting a ruleset omits is the default, not what the previous compile left
     from .C02 import engine_evaluation_order
     engine_evaluation_order(ctx)          # a paused ruleset is still run every tick (its detectors keep their windows)
     from .C13 import merge_writes_only_overridable_parts
@@ -212,23 +238,7 @@ def run(ctx):
                   "on STOP the write of pause_actions_until_ is not tied to "
                   "!plugin_overrode_post_action_delay_")
         pause_value_rule(ctx)
-    # ---- R4 pause_actions
-    pw2 = field_writes(pause, "pause_actions_until_")
-    fw2 = [i for i in field_writes(pause, "plugin_overrode_post_action_delay_")
-           if pause.text(write_rhs(pause, i)) == "true"]
-    ev = {i: [("set", "pw")] for i in pw2}
-    ev.update({i: [("set", "fw")] for i in fw2})
-    f4 = Flow(P, pause, events=ev, cg=ctx.cg)
-    ex = f4.exits()
-    good = ex and all(all("pw" in st.must and "fw" in st.must for st in e[3].values()) for e in ex)
-    ctx.check(good, "pause_actions-writes-both", "must_follow", pause.loc(),
-              "pause_actions writes the deadline and marks the override on every path",
-              "pause_actions does not write both pause_actions_until_ and the override flag on every path")
-    for i in pw2:
-        rhs = Expander(P, pause)(write_rhs(pause, i))          # (a clock reading bound to a local first is the same reading)
-        ctx.check("steady_clock::now()" in rhs and "duration" in rhs, "pause_actions-value",
-                  "value-shape", pause.loc(i), "deadline = steady now + duration",
-                  "deadline written from unexpected expression: " + rhs)
+    pause_actions_writes_both(ctx)
     pause_field_writers(ctx)
 
     # ---- R5 kill plugin: STOP path reaches its ruleset, callers of pause_actions return STOP
